@@ -18,10 +18,11 @@ PROPS['C10'] = {
         'anstyle::{RgbColor::{r,g,b},Ansi256Color::{index,into_ansi,from_ansi}}',
     ],
     'quick': {'verus': ['lossy'], 'kani': [
-        {'crate': 'anstyle-lossy', 'harnesses': ['lossy_distance_eq_spec', 'lossy_passthrough_and_low_indices'], 'timeout': 600}]},
+        {'crate': 'anstyle-lossy', 'harnesses': ['lossy_passthrough_and_low_indices'], 'timeout': 600}]},
     'thorough': {'verus': ['lossy'], 'kani': [
-        {'crate': 'anstyle-lossy', 'harnesses': ['lossy_distance_eq_spec', 'lossy_passthrough_and_low_indices',
-                                                 'lossy_find_match_vga', 'lossy_find_match_win10'], 'timeout': 1800}]},
+        {'crate': 'anstyle-lossy', 'harnesses': ['lossy_passthrough_and_low_indices', 'lossy_distance_eq_spec'], 'timeout': 1800}]},
+    'twins': {'lossy': [{'crate': 'anstyle-lossy', 'harnesses': ['lossy_distance_eq_spec', 'lossy_find_match_vga', 'lossy_find_match_win10'], 'timeout': 300}]},
+    'bounded': {'lossy_distance_eq_spec': 'cross-engine twin of the Verus proof of `distance`: c1 symbolic, c2 components in {0,128,255}'},
     'assumptions': [
         'Palette as Index<AnsiColor> / Default / From<RawPalette> trait impls are one-line forwards to functions under contract and are not themselves extracted',
     ],
